@@ -106,6 +106,7 @@ DEFAULTS = {(4, "no"), (5, "no"), (7, "all")}
 WTYPE = {"one": "str", "length": "str", "dict": "dict", "attr": "Attribute", "attr_dense": "ArrayAttribute"}
 DROP_ORDER = (7, 6, 8, 3, 1, 4, 5, 2, 0)
 
+ATTR_FORMS = ((0.0, "all"), (1.0, "all"), (1.0, "nondefault"), (0.0, "nondefault"))
 PATTERNS = {"dict": (1, 0, 2, 5), "attr": (2, 5, 1, 0, 1), "attr_dense": (0, 0, 1)}
 
 
@@ -296,6 +297,12 @@ def tasks(tier):
     for lo, hi in _chunks(64, 1):
         out.append({"kind": "wgraph", "nmax": 4, "lo": 11 + lo, "hi": 11 + hi, "alphabet": [0, 1, 5] if quick else [0, 1, 2, 5],
                     "level": "lean" if quick else "full"})
+    # the same, over weights far from 1 whose differences lie far below single precision (every sum of <= 3 of them is exact in
+    # double precision, so the expectation stays exact): large integers and near-ties around 1
+    for tag, A in (("big", [2 ** 24, 2 ** 24 + 1, 2 ** 24 + 3]), ("near1", [1.0, 1.0 + 2.0 ** -40, 1.0 + 3 * 2.0 ** -40])):
+        for lo, hi in _chunks(64, 4):
+            out.append({"kind": "wgraph", "nmax": 4, "lo": 11 + lo, "hi": 11 + hi, "alphabet": A, "level": "lean" if quick else "full",
+                        "tag": tag})
     if not quick:
         for lo, hi in _chunks(1024, 8):
             out.append({"kind": "wgraph", "nmax": 5, "lo": 75 + lo, "hi": 75 + hi, "alphabet": [0, 1], "level": "light"})
@@ -507,6 +514,7 @@ class MeshCase:
         except Exception:  # noqa
             self.edge_of_id = None
         self.tables = {}
+        self.n_attr_tables = 0
 
     def describe(self):
         return {"mesh_kind": self.kind, "points": self.pts, "elements": self.elems, "family": self.tag}
@@ -529,9 +537,15 @@ class MeshCase:
         if mode == "dict":
             obj = {e: wlist[e] for e in reversed(range(len(wlist)))}   # inserted in decreasing edge order: insertion order must not matter
         elif mode == "attr":
-            obj = ctx.Attribute(float)
+            # storage forms of a sparse attribute, in rotation over the tables of this mesh: default 0 or 1, every entry written
+            # (stored zeros, stored values equal to the default) or only the entries that differ from the default
+            dflt, which = ATTR_FORMS[self.n_attr_tables % len(ATTR_FORMS)]
+            self.n_attr_tables += 1
+            obj = ctx.Attribute(float) if dflt == 0.0 else ctx.Attribute(float, 1, dflt)
             for e, w in enumerate(wlist):
-                obj[e] = float(w)
+                if which == "all" or float(w) != dflt:
+                    obj[e] = float(w)
+            ctx.rep.flag("attr_form:default=%g:%s" % (dflt, which))
         else:
             obj = ctx.ArrayAttribute(float, len(wlist))
             for e, w in enumerate(wlist):
@@ -1394,7 +1408,7 @@ def _run_wgraphs(task, ctx):
     for n, g in graphs[task["lo"]:task["hi"]]:
         mc = MeshCase(ctx, "polyline", _coords("lattice", n), g, f"GRAPH({n}) weighted over {A}")
         m = len(g)
-        rep.count("wgraph%d" % n)
+        rep.count("wgraph%s%d" % (task.get("tag", ""), n))
         # the named modes once per graph (keeps the feature space of every task complete)
         sweep_mesh(ctx, mc, PLAN_WNAMED, [])
         if mc.edge_of_id is None:
@@ -1403,7 +1417,7 @@ def _run_wgraphs(task, ctx):
         for wl in itertools.product(A, repeat=m):
             if m == 0:
                 break
-            rep.count("weightings")
+            rep.count("weightings" + task.get("tag", ""))
             td = mc.custom_table(ctx, "dict", wl)
             ta = mc.custom_table(ctx, "attr", wl)
             for s in range(n):
@@ -1519,6 +1533,9 @@ def finish(tier, rep: Report):
         fails.append("weighted graphs: wrong family size")
     # sum over graphs with m>=1 edges of |A|^m = (|A|+1)^(n(n-1)/2) - 1, for n = 2, 3 with |A| = 4 and n = 4
     want_w = (5 - 1) + (125 - 1) + ((4 ** 6 if quick else 5 ** 6) - 1) + (0 if quick else 3 ** 10 - 1)
+    for tag in ("big", "near1"):
+        if c.get("weightings" + tag, 0) != 4 ** 6 - 1 or c.get("wgraph%s4" % tag, 0) != 64:
+            fails.append("weighted graphs (%s): wrong family size" % tag)
     if c.get("weightings", 0) != want_w:
         fails.append(f"weightings: {c.get('weightings', 0)} run, expected {want_w}")
     if c.get("skipped_custom_weights:mesh.edges_differs_from_element_edges", 0):
